@@ -124,13 +124,63 @@ def replay_fixture(job):
     return {"violated": bool(d), "detail": d or ""}
 
 
+def _stale_mark():
+    """a source document whose recorded high-water mark is LOWER than its largest identifier (Numbers writes such files: issue-18.numbers):
+    the identifiers a save hands out must still be new"""
+    from numbers_parser import Document
+    from numbers_parser.containers import ObjectStore
+    from numbers_parser.constants import PACKAGE_ID
+    from bounded import docsnap
+    warnings.simplefilter("ignore")
+    src = next((f for f in docsnap.fixtures() if os.path.basename(f) == "test-1.numbers"), None)
+    if src is None:
+        return None
+    with tempfile.TemporaryDirectory() as td:
+        from pathlib import Path
+        store = ObjectStore(Path(src))
+        ids = sorted(store._objects.keys()) if hasattr(store, "_objects") else sorted(store.keys())
+        store._objects[PACKAGE_ID].last_object_identifier = ids[len(ids) // 2]
+        for name, fs in list(store._file_store.items()):
+            pass
+        stale = os.path.join(td, "stale.numbers")
+        store.update_object_file_store()
+        store.save(__import__("pathlib").Path(stale), False)
+        before = set(ObjectStore(Path(stale))._objects.keys())
+        kinds_before = {i: type(o).__name__ for i, o in ObjectStore(Path(stale))._objects.items()}
+        doc = Document(stale)
+        doc.sheets[0].tables[0].write(0, 0, "edited")
+        out = os.path.join(td, "out.numbers")
+        doc.save(out)
+        try:
+            after = ObjectStore(Path(out))._objects
+        except Exception as e:  # noqa: BLE001
+            return f"source with a stale high-water mark: the saved document cannot be re-opened: {type(e).__name__}: {e}"
+        replaced = [i for i in before if i in after and type(after[i]).__name__ != kinds_before[i]]
+        if replaced:
+            i = replaced[0]
+            return (f"source whose recorded high-water mark ({ids[len(ids) // 2]}) is below its largest identifier ({ids[-1]}): the save re-used identifier {i} "
+                    f"({kinds_before[i]} -> {type(after[i]).__name__}); {len(replaced)} existing objects were overwritten")
+    return None
+
+
 def search_store(job):
+    try:
+        d = _stale_mark()
+    except Exception as e:  # noqa: BLE001
+        d = None if "has no attribute" in str(e) else f"source with a stale high-water mark: raised {type(e).__name__}: {e}"
+    if d:
+        return {"violated": True, "detail": d, "job": {"custom": "replay_stale_mark"}}
     r = _try(["tables", "styles", "formats", "image", "shape:300x2"], ["ids", "inventory", "closure", "open"])
     return r if r["violated"] else _fixtures(("test-2.numbers", "issue-77.numbers", "issue-10.numbers", "test-8.numbers", "test-1.numbers"))
 
 
 def replay_kind(job):
     return _try([job["kind"]], job.get("want"))
+
+
+def replay_stale_mark(job):
+    d = _stale_mark()
+    return {"violated": bool(d), "detail": d or ""}
 
 
 NATIVE = {}
